@@ -345,7 +345,7 @@ pub fn run(p: &Params, rep: &mut Report) {
                     check_good(rep, &mut m, &x, how, &case, "ops", seed);
                 }
             }
-            let closure_ok = w::verif_with_manager(|mm| mm.iter_derivatives(t).take(801).count() <= 800);
+            let closure_ok = w::verif_with_manager(|mm| super::rectx::closure_size(mm, t, 800).is_some());
             if closure_ok {
                 if let Ok(Some(x)) = guard(|| w::verif_with_manager(|mm| mm.get_string(t))) {
                     rep.inc("operation_results_checked");
